@@ -79,6 +79,10 @@ def newCoin (denom : String) (amount : Int) : Option Coin := if amount < 0 then 
 /-- `sdk.NewCoins(c)` of one coin: zero coins are dropped -/
 def newCoins1 (c : Coin) : List Coin := if c.Amount = 0 then [] else [c]
 
+/-- `sdk.BigEndianToUint64` (0 for an empty slice) and `sdk.Uint64ToBigEndian` -/
+def beToU64 (bz : List Nat) : Nat := if bz.isEmpty then 0 else (bz.foldl (fun acc b => acc * 256 + b % 256) 0) % 2^64
+def u64ToBe (n : Nat) : List Nat := (List.range 8).map fun i => (n / 256^(7 - i)) % 256
+
 /-- an effect on something the translator does not interpret: the callee's path and its integer arguments -/
 structure Effect where
   name : String
